@@ -519,7 +519,7 @@ def _no_np(ops):
 
 
 def _structural(ops):
-    drop = ("H.cleanup", "xgi.", "H.__setitem__", "H.set_node_attributes(5", "H.update(nodes", "H.clear(remove_net_attr",
+    drop = ("become(", "H.cleanup", "xgi.", "H.__setitem__", "H.set_node_attributes(5", "H.update(nodes", "H.clear(remove_net_attr",
             "H.add_edges_from(5)", "H.merge_duplicate_edges(rename='tuple', merge_rule='union')",
             "H.merge_duplicate_edges(rename='new', merge_rule='intersection')")
     return [o for o in ops if not o.startswith(drop)]
